@@ -200,12 +200,22 @@ def exec_case(sub, case, stats, excludes=()):
     except Exception as e:
         # an exception escaping the code under test (innermost frame inside the repository) on a case of the property's
         # domain is an observation, not a harness error; anything raised by the harness itself stays a harness error
+        # (also when it was raised further down, in the standard library or a dependency called BY the repository, as long as no
+        # frame of the harness lies below the last repository frame -- a user callback of the harness that raises is a harness error)
         tb = e.__traceback__
-        last = None
+        repo_root = os.path.realpath(REPO).rstrip('/') + '/'
+        here = os.path.dirname(os.path.dirname(os.path.realpath(__file__))).rstrip('/') + '/'
+        depth, last_repo, last_harness = 0, -1, -1
         while tb is not None:
-            last = tb.tb_frame.f_code.co_filename
+            raw = tb.tb_frame.f_code.co_filename
+            fn = os.path.realpath(raw) if not raw.startswith('<') else raw        # '<frozen codecs>', '<string>': nobody's
+            if fn.startswith(repo_root):
+                last_repo = depth
+            elif fn.startswith(here):
+                last_harness = depth
+            depth += 1
             tb = tb.tb_next
-        if last and os.path.realpath(last).startswith(os.path.realpath(REPO).rstrip('/') + '/'):
+        if last_repo > last_harness:
             stats.evaluations += 1
             v = Violation('exception escaped from rxsci on an input of the domain: %r' % (e,),
                           traceback=''.join(traceback.format_exception(type(e), e, e.__traceback__))[-1500:])
